@@ -22,10 +22,12 @@ Open Scope nat_scope.
 Section AB.
   Variable sy : sys.
   Variable pp : popu.
-  Hypothesis Hne : no_eternal sy.
   Variable low : list key.
   Variable inv0 : list key.
   Variable kF : key.
+  (** the marks already placed belong to dated variables (true of every run from a state
+      without marks when eternal variables are leaves; trivial without eternal variables) *)
+  Hypothesis Hd0 : dated_keys sy inv0.
 
   Definition RAB (s t : st) : Prop :=
     stack s = stack t ++ low /\ invalid s = invalid t ++ inv0 /\ In kF (stack t) /\
@@ -64,19 +66,21 @@ Section AB.
     unfold calc_body in H |- *. rewrite Hsl in H. rewrite Hst. cbn [tl app] in H |- *.
     destruct (nth_error (vars sy) v) as [x|] eqn:Ex; [|discriminate].
     destruct (check_consistency x p) as [u|]; [|discriminate].
-    unfold get_array in H |- *. rewrite (norm_id sy v x p Hne Ex) in H |- *.
-    destruct (if v_neutral x then Some (default_array pp x) else lookup (v, p) (cache s)) as [b|] eqn:Eg.
+    unfold get_array in H |- *.
+    destruct (if v_neutral x then Some (default_array pp x) else lookup (v, norm x p) (cache s)) as [b|] eqn:Eg.
     { destruct (existsb (key_eqb (v, p)) (invalid s)) eqn:Et; injection H as <- <-.
       - exfalso. apply Hg. cbn [add_invalid invalid]. apply in_or_app. left.
         change ((v, p) :: up ++ low) with (((v, p) :: up) ++ low). apply in_or_app. now left.
       - rewrite R2, existsb_app in Et. apply orb_false_elim in Et as [Et1 Et2].
-        assert (Egr : (if v_neutral x then Some (default_array pp x) else lookup (v, p) (cache t)) = Some b).
-        { destruct (v_neutral x); auto. destruct (R4 (v, p)) as [E|[E _]]; [congruence|].
-          apply existsb_key_in in E. congruence. }
+        assert (Egr : (if v_neutral x then Some (default_array pp x) else lookup (v, norm x p) (cache t)) = Some b).
+        { destruct (v_neutral x); auto. destruct (R4 (v, norm x p)) as [E|[E _]]; [congruence|]. exfalso.
+          destruct (unit_eqb (v_unit x) Eternity) eqn:Eu.
+          - specialize (Hd0 _ x E Ex). congruence.
+          - rewrite (norm_dated x p Eu) in E. apply existsb_key_in in E. congruence. }
         rewrite Egr, Et1. eauto. }
     destruct (v_neutral x); [discriminate|].
-    assert (Egr : lookup (v, p) (cache t) = None).
-    { destruct (R4 (v, p)) as [E|[_ E]]; congruence. }
+    assert (Egr : lookup (v, norm x p) (cache t) = None).
+    { destruct (R4 (v, norm x p)) as [E|[_ E]]; congruence. }
     rewrite Egr.
     rewrite prev_periods_app, existsb_app, app_length in H.
     destruct (existsb (period_eqb p) (prev_periods v up)); [discriminate|]. cbn [orb] in H.
@@ -157,23 +161,29 @@ Proof.
   now destruct (existsb (key_eqb k) inv).
 Qed.
 
-Lemma justify_frame sy pp f s v p s' a : no_eternal sy ->
+Lemma justify_frame_gen sy pp f s v p s' a : dated_keys sy (invalid s) ->
   calc_body (calc f sy pp) sy pp (push (v, p) s) v p = (s', Ok a) ->
   ~ In (v, p) (invalid s') ->
   snd (calc (S f) sy pp {| cache := unmarked (invalid s) (cache s); stack := []; invalid := [] |} v p) = Ok a.
 Proof.
-  intros Hne Hb Hg.
+  intros Hd Hb Hg.
   set (t := {| cache := unmarked (invalid s) (cache s); stack := []; invalid := [] |}).
   assert (HR : RAB (stack s) (invalid s) (v, p) (push (v, p) s) (push (v, p) t)).
   { unfold RAB; cbn [push stack invalid cache app t]. repeat split; auto; [now left|].
     intro k. rewrite lookup_unmarked. destruct (existsb (key_eqb k) (invalid s)) eqn:E; auto.
     right. split; auto. now apply existsb_key_in. }
-  destruct (body_AB sy pp Hne (stack s) (invalid s) (v, p) (calc f sy pp) (calc f sy pp)
+  destruct (body_AB sy pp (stack s) (invalid s) (v, p) Hd (calc f sy pp) (calc f sy pp)
               (push (v, p) s) (push (v, p) t) v p [] s' a
-              (calc_AB sy pp Hne (stack s) (invalid s) (v, p) f)
+              (calc_AB sy pp (stack s) (invalid s) (v, p) Hd f)
               (PLs_calc sy pp f) (goodF_mono sy pp (v, p) f) HR eq_refl Hb Hg) as (t1 & Et & _).
   cbn [calc]. rewrite Et. reflexivity.
 Qed.
+
+Lemma justify_frame sy pp f s v p s' a : no_eternal sy ->
+  calc_body (calc f sy pp) sy pp (push (v, p) s) v p = (s', Ok a) ->
+  ~ In (v, p) (invalid s') ->
+  snd (calc (S f) sy pp {| cache := unmarked (invalid s) (cache s); stack := []; invalid := [] |} v p) = Ok a.
+Proof. intro Hne. apply justify_frame_gen. now apply no_eternal_dated. Qed.
 
 (** * More fuel does not change a run that returned a value *)
 
